@@ -393,6 +393,7 @@ impl Monitor for C07 {
          (exhaustive): every group shape (if | if-else | if-elif | if-elif-else | if-elif-elif-else) x every truth assignment x first-branch form \
          (#if, #ifdef, #ifndef) with an inner group of every shape and truth assignment nested in each of the first four regions. Random pool: \
          sequences of 1-4 groups nested to depth 6. Observed: marker names among CompilerState's variables; the Err and line of #error. \
+         Regions also hold string literals with comment openers; some cases define 97-130 filler macros before a macro that is #undef-ed, redefined and tested. \
          non-trivial = every case"
             .into()
     }
